@@ -201,6 +201,14 @@ def produce(jobs, procs=NCPU):
         return pool.map(run_case, jobs, chunksize=max(1, min(64, len(jobs) // (procs * 4))))
 
 
+def _run_tlc_retry(module, **kw):
+    """run_tlc; when the JVM disappeared without any result (killed from outside), once more."""
+    r = tlc.run_tlc(module, **kw)
+    if not r.get("ok") and not r.get("error") and "is violated" not in r["out"]:
+        r = tlc.run_tlc(module, **kw)
+    return r
+
+
 # ---------------------------------------------------------------------------
 # TLC as judge
 
@@ -213,7 +221,13 @@ def judge(traces, procs=NCPU, batch=None):
     chunks = [traces[i:i + batch] for i in range(0, len(traces), batch)]
 
     def one(chunk):
-        return tlc.validate_traces(chunk, module=TRACE_MODULE, cfg=TRACE_CFG, timeout=3000)
+        try:
+            return tlc.validate_traces(chunk, module=TRACE_MODULE, cfg=TRACE_CFG, timeout=3000)
+        except tlc.TLCError as e:
+            if "Error:" in str(e):
+                raise
+            # the JVM went away without a result (e.g. killed from outside): once more
+            return tlc.validate_traces(chunk, module=TRACE_MODULE, cfg=TRACE_CFG, timeout=3000)
 
     t0 = time.time()
     with ThreadPoolExecutor(max_workers=min(procs, len(chunks))) as ex:
@@ -243,7 +257,7 @@ def case_hash(case, var):
 
 def enumerate_cases(cfg):
     """spec -> code: the cases TLC prints from the model (each exactly once)."""
-    r = tlc.run_tlc("MxActions", cfg=cfg, workers=NCPU, timeout=3000)
+    r = _run_tlc_retry("MxActions", cfg=cfg, workers=NCPU, timeout=3000)
     cases = [json.loads(tlc.tla_to_py(t)[1]) for t in tlc._match_tuples(r["out"], "MBT")]
     if not r.get("ok") or not cases:
         raise tlc.TLCError("case enumeration failed (%s):\n%s" % (cfg, r["out"][-2000:]))
@@ -277,14 +291,17 @@ def random_cases(seed, count):
 
 
 def jobs_for(cases, seed, nvariants, direct_every):
-    """nvariants variants per case, rotating through VARIANTS (first always scalar, second param)."""
+    """nvariants variants per case, rotating through VARIANTS (with two or more: the first is
+    a scalar style, the second the one-parameter style)."""
     rng = random.Random(seed)
     jobs = []
     for k, c in enumerate(cases):
         off = rng.randrange(len(VARIANTS))
         picks = []
         for j in range(nvariants):
-            if j == 0:
+            if nvariants == 1:
+                v = VARIANTS[(off + k) % len(VARIANTS)]
+            elif j == 0:
                 v = [x for x in VARIANTS if x["style"] != "param"][(off + k) % 8]
             elif j == 1:
                 v = [x for x in VARIANTS if x["style"] == "param"][(off + k) % 4]
@@ -309,7 +326,7 @@ MC_INVARIANTS = ["Inv_C16_TargetsHoldDirectValues", "Inv_C16_NothingElseLeft",
 
 def model_check(cfg, coverage=False, timeout=3000, workers=NCPU):
     extra = ["-coverage", "1"] if coverage else []
-    r = tlc.run_tlc("MxActions", cfg=cfg, workers=workers, timeout=timeout, extra=extra)
+    r = _run_tlc_retry("MxActions", cfg=cfg, workers=workers, timeout=timeout, extra=extra)
     res = {"cfg": cfg, "ok": bool(r.get("ok")), "states": r.get("states"),
            "transitions": r.get("transitions"), "depth": r.get("depth"),
            "wall_s": round(r["wall_s"], 1)}
